@@ -430,6 +430,12 @@ namespace vf
 #define VF_SUITE(name, countfn, runfn) static ::vf::SuiteReg vf_suite_reg_##name(#name, countfn, runfn);
 } // namespace vf
 
+#ifdef VF_COVERAGE
+extern "C" void __gcov_dump(void);
+#define VF_GCOV_DUMP() __gcov_dump()
+#else
+#define VF_GCOV_DUMP() ((void)0)
+#endif
 // optional harness hook: called once in the parent before forking (register required clauses etc.)
 extern "C" void vf_setup() __attribute__((weak));
 
@@ -529,6 +535,7 @@ namespace vf
         }
         flush_local();
         fflush(nullptr);
+        VF_GCOV_DUMP();
         _exit(0);
     }
     // run a single case in a child; returns 0 ok, 1 crashed, 2 timed out
@@ -542,6 +549,7 @@ namespace vf
             redirect_stderr();
             run_one(suite, local);
             fflush(nullptr);
+            VF_GCOV_DUMP();
             _exit(0);
         }
         uint64_t t0 = now_ns();
